@@ -11,7 +11,9 @@ print(f"""You are testing how robust a Go library is against subtle regressions.
 
 Work ONLY in your own scratch git worktree. Create it first:
     git -C /repo worktree add --detach {wt} HEAD
-Never edit anything under /repo or /verif, and do not read /verif. Every shell call needs:
+Then immediately run:   find {wt} -name verif_contracts.go -delete     (comment-only files that are not part of the library; do not read
+them, never include them in a patch, and use `git diff -- . ':(exclude)*verif_contracts.go'`-style diffs of the source files you changed only).
+Do not use `git stash` (the stash is shared with other worktrees). Never edit anything under /repo or /verif, and do not read /verif. Every shell call needs:
     export GOFLAGS=-mod=mod GOPROXY=off GOSUMDB=off GOTOOLCHAIN=local
 (there is no network). The full test suite is run with:  cd {wt} && go test -vet=off -count=1 ./...   (about 10 s; it passes on the unchanged tree).
 
